@@ -42,6 +42,14 @@ pub struct Pair {
     pub b: D,
 }
 
+/// the decimal as an i32 when it is an integer written with scale 0 that fits
+fn i32_of(d: &D) -> Option<i32> {
+    if d.scale != 0 {
+        return None;
+    }
+    d.int.parse::<i32>().ok()
+}
+
 pub fn check_div(c: &Pair) -> Verdict {
     let cfg = build_cfg();
     if c.b.is_zero() {
@@ -65,6 +73,23 @@ pub fn check_div(c: &Pair) -> Verdict {
     let forms: [(&str, BigDecimal); 3] = [("BD / BD", a.clone() / b.clone()), ("BD / &BD", a.clone() / &b), ("&BD / BD", &a / b.clone())];
     for (what, q2) in forms {
         ensure!(v, dec_of(&q2).eq_val(&dec_of(&q)), format!("C20/division-forms:{}", what), "{} = {} but &BD / &BD = {}", what, dec_of(&q2).show(), dec_of(&q).show());
+    }
+    // primitive operands go through the same machinery (and its shortcuts for +-1 and +-2) under the configured defaults
+    if let (Some(ai), Some(bi)) = (i32_of(&c.a), i32_of(&c.b)) {
+        if bi != 0 {
+            let prim: [(&str, BigDecimal); 4] = [("i32 / BD", ai / b.clone()), ("i32 / &BD", ai / &b), ("BD / i32", a.clone() / bi), ("&BD / i32", &a / bi)];
+            for (what, q2) in prim {
+                // division by +-2 is documented to return the exact half whatever the precision
+                if what.ends_with("/ i32") && (bi == 2 || bi == -2) {
+                    continue;
+                }
+                // a primitive numerator one is the reciprocal (inverse(), rounded with the configured mode): exempt in C08
+                if what.starts_with("i32 /") && ai == 1 {
+                    continue;
+                }
+                ensure!(v, dec_of(&q2).eq_val(&dec_of(&q)), format!("C20/division-forms:{}", what), "{} = {} but &BD / &BD = {} (a = {}, b = {})", what, dec_of(&q2).show(), dec_of(&q).show(), c.a.dec().show(), c.b.dec().show());
+            }
+        }
     }
     // "deliver the configured number of significant digits": a ROUNDED quotient (q * b != a) has the configured number
     // of digits - not the default 100, not max(configured, 100). The library never truncates the integer quotient of the
